@@ -361,6 +361,47 @@ def printer_coverage(vals):
     return [x for x in inv if x.split(':')[-1] in called], [x for x in inv if x.split(':')[-1] not in called]
 
 
+def sorted_keys_check():
+    """dict-like values whose KEYS are instances of the stdlib types, printed with sort_dict_keys=True (the sort key is computed from the
+    key objects: namedtuples, dates, paths, enums, UUIDs, frozen sets of them): no printer may fail, and the text evaluates back.
+    Oracle only - the model does not order such keys."""
+    td = datetime.timedelta
+    dicts = [
+        {Point(1, 2): 'a', Point(0, 5): 'b'}, {Single(3): 1}, {Point(1, 2): 1, (0, 9): 2, 'str': 3},
+        collections.Counter([Point(1, 1), Point(1, 1), Point(0, 0)]), collections.defaultdict(int, {Point(2, 2): 1, Point(1, 3): 2}),
+        collections.OrderedDict([(Point(9, 9), 1), (Point(1, 1), 2)]), types.MappingProxyType({Point(5, 5): 0, Point(4, 4): 1}),
+        collections.ChainMap({Point(1, 0): 1}, {Point(0, 1): 2}),
+        {datetime.date(2021, 1, 1): 1, datetime.date(2020, 1, 1): 2}, {td(days=2): 'x', td(days=1): 'y'}, {uuid.UUID(int=2): 1, uuid.UUID(int=1): 2},
+        {pathlib.PurePosixPath('/b'): 1, pathlib.PurePosixPath('/a'): 2}, {Color.RED: 1, Color.GREEN: 2},
+        {frozenset([Point(1, 2)]): 1, frozenset([1]): 2}, {(Point(1, 2), 1): 'nested', (Point(0, 0), 2): 'keys'},
+        [{Point(1, 2): [Point(3, 4)]}, {Single('s'): {Single('t'): 1}}],
+    ]
+    fails = []
+    for d in dicts:
+        for kw in ({'sort_dict_keys': True}, {'sort_dict_keys': True, 'width': 20}, {'sort_dict_keys': True, 'max_seq_len': 1}):
+            with warnings.catch_warnings(record=True) as w:
+                warnings.simplefilter('always')
+                try:
+                    text = pp.pformat(d, **kw)
+                except Exception as e:
+                    fails.append({'kind': 'stdlib-sorted-keys', 'why': 'pformat raised %s: %s' % (type(e).__name__, e), 'value': repr(d)[:200], 'settings': kw})
+                    continue
+            if any('raised an exception' in str(x.message) for x in w):
+                fails.append({'kind': 'stdlib-sorted-keys', 'why': 'a bundled printer failed internally (repr fallback warning) under sort_dict_keys=True',
+                              'value': repr(d)[:200], 'settings': kw, 'text': text[:300]})
+                continue
+            if 'max_seq_len' in kw:
+                continue
+            try:
+                got = eval('(' + text + '\n)', dict(scope()))
+            except Exception as e:
+                fails.append({'kind': 'stdlib-sorted-keys', 'why': 'the text does not evaluate (%s)' % type(e).__name__, 'value': repr(d)[:200], 'settings': kw, 'text': text[:300]})
+                continue
+            if got != d or type(got) is not type(d):
+                fails.append({'kind': 'stdlib-sorted-keys', 'why': 'evaluates to a different value', 'value': repr(d)[:200], 'settings': kw, 'text': text[:300]})
+    return fails[:3]
+
+
 def stdlib_section(tier, seed, mode='c07'):
     rng = random.Random(seed * 61 + 18)
     iseed = seed * 67 + 1
@@ -382,6 +423,8 @@ def stdlib_section(tier, seed, mode='c07'):
             nt += b
             mism.extend(mm)
             fails.extend(ff)
+    if mode == 'c07':
+        fails.extend(sorted_keys_check())
     invoked, not_invoked = printer_coverage(vals)
     stats = {'evaluations': tot, 'distinct_nontrivial': nt, 'instances': len(vals), 'cases': len(cases), 'mismatches': len(mism),
              'types': sorted({type(v).__name__ for v in vals}),
